@@ -354,7 +354,21 @@ def run_history(w: World, rng: random.Random, steps: int, *, p_instr: float = 0.
                 # --- update phase ---
                 oracle.reset()
                 pre = sim
-                sim = perform_vehicle_state_updates(sim, env)
+                # the order in which the phase steps the vehicles is observed (C18: processing order; C01)
+                from nrel.hive.state.simulation_state.update import step_simulation_ops as _sso
+
+                stepped: List[str] = []
+                _real_step = _sso.step_vehicle
+
+                def _spy_step(sim_, env_, veh_):
+                    stepped.append(veh_.id)
+                    return _real_step(sim_, env_, veh_)
+
+                _sso.step_vehicle = _spy_step
+                try:
+                    sim = perform_vehicle_state_updates(sim, env)
+                finally:
+                    _sso.step_vehicle = _real_step
                 crow = []
                 for vid_, v_ in sorted(sim.vehicles.items()):
                     p_ = pre.vehicles.get(vid_)
@@ -364,6 +378,7 @@ def run_history(w: World, rng: random.Random, steps: int, *, p_instr: float = 0.
                     {
                         "op": "update",
                         "id": f"{tag}:{k}:update",
+                        "order": [n.get("veh", x) for x in stepped],
                         "crow": crow,
                         "pre": enc_sim(n, pre),
                         "post": enc_sim(n, sim),
